@@ -7,6 +7,8 @@ import Driver.Pool
 import Driver.Rewards
 import Driver.Consensus
 import Driver.Codec
+import Driver.Wallet
+import Driver.Genesis
 /-
 One line per handler object. The first handler that understands a line answers it.
 -/
@@ -26,7 +28,9 @@ def registry : List Obj := [
   pureObj pureBeforeTime,
   pureObj pureMverify,
   pureObj pureAddMomentum,
-  pureObj pureCodec
+  pureObj pureCodec,
+  pureObj pureWallet,
+  pureObj pureGenesis
 ]
 
 end ZV.Driver
